@@ -561,7 +561,7 @@ func c04CheckE2E(c c04E2ECase) engine.Result {
 				// second earlier across the wrap
 				dtsVariants = append(dtsVariants, c.V, ^c.V&m33, (c.V-3003)&m33, (c.V-90000)&m33)
 			}
-			for _, sid := range []byte{0xE0, 0xC0, 0xBD} {
+			for _, sid := range []byte{0xE0, 0xC0, 0xBD, 0xF3, 0xFE} { // video, audio, private_stream_1, ISO 13522, the last id with an optional header
 				for k := 0; k < len(dtsVariants)+1; k++ {
 					// the first DTS variant with both stuffing amounts, the others alternating
 					vi, extra := 0, 2*(k%2)
